@@ -11,7 +11,8 @@ import PdfModel.Model.Numeric
   c14.page <n> <rootkids> <objs>           obj `t<count>` | `t<count>:<k>+…` | `p` | `b`; rootkids `k+k…` or `-`   → `ok <leaf>` | `err`
   c14.cs <k> <objs>                        obj `n` | `x<b>` | `s<b>` | `d<b>` | `o` | `b`  → ok | err
   c14.ap <k> <objs>                        obj `s` | `d` | `d<v>+<v>…` | `b`   → ok | err
-  c14.prev <start> <secs>                  sec `u` (unreadable) | `e` (no /Prev) | `p<pos>`  → `ok <sections>` | err
+  c14.prev <start_offset> <startxref|x> <buffer length> <abs:sec,…>   sec `u` (unreadable) | `e` (no /Prev) | `p<header-relative number>`
+                                           (positions not listed are unreadable)  → `ok <sections>` | err
   c14.xref <tolerant> <W> <index pairs f.n,…> <data hex>   → `ok first:e+e…;first:…` (entry `f.a.b | r.a.b | s.a.b`) | err
   c14.objstm <first> <N> <pairs a.b,…> <index> <dataLen>   (a, b: number or `x`)  → `ok <start> <end>` | err
   c14.diff <parts>                         part `c<int>` | `n<id>` | `o`   → `ok gid.name,…` | err
@@ -107,6 +108,12 @@ def parseSec (s : String) : Option (Option (Option Nat)) :=
   else if s == "e" then some (some none)
   else if s.startsWith "p" then (natOf (dropPrefix s 1)).map (fun p => some (some p))
   else none
+
+/-- `abs:u | abs:e | abs:p<rel>`: what is at an absolute buffer position -/
+def parseSecAt (s : String) : Option (Nat × Option (Option Nat)) :=
+  match s.splitOn ":" with
+  | [a, k] => do some (← natOf a, ← parseSec k)
+  | _ => none
 
 -- ---------------------------------------------------------------- xref
 
@@ -229,10 +236,16 @@ def handle (args : List String) : String :=
     match natOf k, mapM? parseAObj (listOf objs ",") with
     | some k, some g => (apLoad g 2 k).tag
     | _, _ => "bad-request"
-  | ["c14.prev", start, secs] =>
-    match natOf start, mapM? parseSec (listOf secs ",") with
-    | some start, some secs => showOutNat (readChain secs (secs.length + 1) start)
-    | _, _ => "bad-request"
+  | ["c14.prev", start, xrefOffset, len, entries] =>
+    match natOf start, natOf len, mapM? parseSecAt (listOf entries ",") with
+    | some start, some len, some es =>
+      -- `x`: the number after `startxref` is not a usize
+      match natOf xrefOffset with
+      | none => if xrefOffset == "x" then "err" else "bad-request"
+      | some x =>
+        let secs : Sections := es.foldl (fun (t : Sections) (e : Nat × Option (Option Nat)) => t.set e.1 e.2) (List.replicate len none)
+        showOutNat (readChain secs start (secs.length + 1) x)
+    | _, _, _ => "bad-request"
   | ["c14.xref", tol, w, pairs, data] =>
     match boolOf tol, mapM? natOf (listOf w ","), mapM? parsePair (listOf pairs ","), bytesOfHex data with
     | some tol, some w, some pairs, some data =>
